@@ -353,6 +353,13 @@ def run_cli(desc):
     samples = []
     for _ in range(desc["n"]):
         base, _f = gen_ledger(rng, Opts(**CLASSES[rng.choice(["multi", "single_dense", "plain"])]))
+        if rng.random() < 0.4:
+            # two textually identical lines (two equal fills of one order): they may end up in different files
+            buys = [i for i, t in enumerate(base) if t["kind"] == "BUY"]
+            if buys:
+                i_ = rng.choice(buys)
+                base = base[:i_ + 1] + [dict(base[i_])] + base[i_ + 1:]
+                cnt["cli_ledgers_with_identical_lines"] += 1
         lines = render_dsl(base).splitlines()
         k = rng.randint(1, min(5, len(lines)))
         ordered = rng.random() < 0.5
@@ -449,7 +456,7 @@ def replay(case):
     return vs, {"base": oa, "variant": ob}
 
 
-THRESHOLDS = {"bases_bnb_claim_on_multi_lot_day": 300, "variants_perm": 5000, "variants_fill": 1000,
+THRESHOLDS = {"cli_ledgers_with_identical_lines": 35, "bases_bnb_claim_on_multi_lot_day": 300, "variants_perm": 5000, "variants_fill": 1000,
               "cli_pairs": 100, "cli_style_CRLF": 20, "cli_style_LF,no-final-newline": 20}
 RULE = ("base ledgers x (6 line permutations incl. reversal, by-ticker, sells-first, same-day interleaving) x (2 "
         "fill-splittings with exact total quantity/consideration/fees, adjacent or separated) at the library boundary, "
